@@ -67,6 +67,15 @@ Fixpoint nfail (evs : list ev) : nat :=
   | _ :: r => nfail r
   end.
 
+(* bytes a script delivers before its first injected failure *)
+Fixpoint avail (evs : list ev) : nat :=
+  match evs with
+  | [] => 0%nat
+  | Fail :: _ => 0%nat
+  | Data bs :: r => (length bs + avail r)%nat
+  | Zero :: r => avail r
+  end.
+
 Fixpoint ev_weight (evs : list ev) : nat :=
   match evs with
   | [] => 0%nat
